@@ -119,7 +119,11 @@ def _gen_auto(rng, tier, i):
     if i >= (300 if tier == "quick" else 6000):
         return None
     fmt = ["tab", "bed3", "bed4", "interval", "text"][i % 5]
-    return dict(arr=_regions(rng, tier, dotted=False, extra=(fmt == "tab")), fmt=fmt)
+    arr = _regions(rng, tier, dotted=False, extra=(fmt == "tab"))
+    if fmt == "interval" and rng.random() < 0.6:
+        # tables that came from BED carry a strand column ('.' where unknown)
+        arr.data["strand"] = [rng.choice([".", ".", "+", "-"]) for _ in range(len(arr))]
+    return dict(arr=arr, fmt=fmt)
 
 
 def _call_auto(fn, a):
